@@ -77,7 +77,7 @@ func leaves(w weights) []models.Query {
 }
 
 func weightSets() []weights {
-	return []weights{{}, {f32(0.5), f32(2), f32(-1), f32(1)}, {f32(-1), f32(0), f32(2), f32(0.5)}}
+	return []weights{{}, {f32(0.5), f32(2), f32(-1), f32(1)}, {f32(-1), f32(0), f32(2), f32(0.5)}, {f32(0), f32(-1), f32(0), f32(2)}}
 }
 
 func and(qs ...models.Query) models.Query { return models.Query{Property: "_and", And: qs} }
@@ -608,7 +608,7 @@ func scalarSelect(o *sl.Obs, in *sl.Inst, m *sl.Model) {
 }
 
 func master(cfg *harness.Config, rep *harness.Report) {
-	rep.Rule = "fixed 8-point data set (distinct distances, points lacking fields, a field that is int / string / float / absent, a field that is scalar in one point and a map in another); all _and/_or trees with 1-3 children and all two-level trees over a 7-leaf pool (graph vector, flat vector, two text, string filter, integer filter, _id) x 3 weight assignments (nil / positive / negative and zero): result set = set algebra of the sub-results, hybrid = sum of weighted contributions, ranked first highest hybrid first, filter-only after; on a fixed sample of trees and all leaves: 11 select lists x 17 sort lists (asc/desc, every direction pattern over two and three keys with ties on the leading keys, nested, missing, mixed-type, 10 keys) with DecodedData = exactly the selected stored values and adjacent-pair sortedness, and offset {0,1,2,n-1,n,n+3} x limit {1,2,100} = contiguous slice of the full order (compared by order keys)"
+	rep.Rule = "fixed 8-point data set (distinct distances, points lacking fields, a field that is int / string / float / absent, a field that is scalar in one point and a map in another); all _and/_or trees with 1-3 children and all two-level trees over a 7-leaf pool (graph vector, flat vector, two text, string filter, integer filter, _id) x 4 weight assignments (nil / positive / negative / an explicit zero on each kind of ranking leaf): result set = set algebra of the sub-results, hybrid = sum of weighted contributions, ranked first highest hybrid first, filter-only after; on a fixed sample of trees and all leaves: 11 select lists x 17 sort lists (asc/desc, every direction pattern over two and three keys with ties on the leading keys, nested, missing, mixed-type, 10 keys) with DecodedData = exactly the selected stored values and adjacent-pair sortedness, and offset {0,1,2,n-1,n,n+3} x limit {1,2,100} = contiguous slice of the full order (compared by order keys)"
 	rep.Assumptions = []string{"sorting is defined on the selected data (sort keys must be selected or '*')", "leaf limits are cut where no distance tie exists; trees whose reference is ambiguous are skipped and counted", "ties in the final order may be resolved either way"}
 	p := pool.New(pool.Options{CPUsPerWorker: 2, JobTimeout: 300 * time.Second})
 	syms := symbols()
